@@ -52,6 +52,11 @@ def draw_case(rng: numpy.random.Generator, nq=None, nat=None, low_t: bool = True
     if low_t and nt >= 3 and rng.random() < 0.6:
         t[1] = float(rng.choice([0.5, 1.0, 2.0, 5.0]))
         t = numpy.sort(t)
+    # "all temperature grids with T >= 0": the rows need not be ascending, and 0 K need not come first (or only once)
+    if nt >= 2 and rng.random() < 0.3:
+        t = t[rng.permutation(nt)]
+        if nt >= 3 and rng.random() < 0.3:
+            t[-1] = 0.0
     freq = rng.uniform(30.0, 1500.0, (ntv, nq, np_))
     if gamma_zero is None:
         gamma_zero = rng.random() < 0.7
